@@ -23,6 +23,7 @@ type scanSpec struct {
 	FromStdin bool        `json:"targets_from_stdin,omitempty"`
 	Ports     []portRange `json:"ports,omitempty"`
 	PortsFile bool        `json:"ports_via_file,omitempty"`
+	PortsSplit int        `json:"ports_first_n_via_p,omitempty"` // with ports_via_file: the first n ranges are given with -p, the rest in the file
 	Exclude   []string    `json:"exclude,omitempty"`
 	VPN       bool        `json:"vpn,omitempty"`
 	GwMAC     string      `json:"gwmac,omitempty"` // via --gwmac
@@ -193,7 +194,13 @@ func (s *scanSpec) world() *WorldSpec {
 	if len(s.Ports) > 0 {
 		if s.PortsFile {
 			var sb strings.Builder
-			for _, r := range s.Ports {
+			inFile := s.Ports
+			if s.PortsSplit > 0 && s.PortsSplit < len(s.Ports) {
+				// both options at once: the scan covers the ranges of -p and those of the file
+				argv = append(argv, "-p", portsArg(s.Ports[:s.PortsSplit]))
+				inFile = s.Ports[s.PortsSplit:]
+			}
+			for _, r := range inFile {
 				sb.WriteString(portsArg([]portRange{r}) + "\n")
 			}
 			w.Files[portsFn] = sb.String()
@@ -528,6 +535,9 @@ func genScan(p picker, k genKnobs) *scanSpec {
 	}
 	if len(s.Ports) > 0 && p.pct("portsfile", 15) {
 		s.PortsFile = true
+		if len(s.Ports) >= 2 && p.pct("portssplit", 40) {
+			s.PortsSplit = 1 + p.n("portssplitat", len(s.Ports)-1)
+		}
 	}
 	if k.allowExcl && p.pct("exclude", 35) {
 		s.Exclude = genExclude(p, s)
